@@ -130,13 +130,10 @@ def iterator(ctx, rule):
 def sibling(ctx, rule):
     b = ctx.body(ISRB)
     calls = [q.shape(b.expr_of_call(t)) for bi, t in b.calls()]
-    ctx.check(calls == ["Pread::pread_with(arg1,0,endian::LE)", "Result::ok(Pread::pread_with(arg1,0,endian::LE))", "Option::is_some_and(Result::ok(Pread::pread_with(arg1,0,endian::LE)),closure:is_ram_bundle_slice::{closure#0})"], rule, ISRB, "shape",
+    ctx.check(calls == ["Pread::pread_with(arg1,0,endian::LE)", "Result::ok(Pread::pread_with(arg1,0,endian::LE))", "Option::is_some_and(Result::ok(Pread::pread_with(arg1,0,endian::LE)),\u03bb(RamBundleHeader::is_valid_magic(p1)))"], rule, ISRB, "shape",
               "recognition reads the same header type at offset 0, little-endian; a short buffer reads as false", detail=str(calls))
     hdr = [a for bi, t in b.calls() if q.nice(t.get("callee")) == "Pread::pread_with" for a in t.get("callee_args", []) if "RamBundleHeader" in a]
     ctx.check(bool(hdr), rule, ISRB, "header-type", "the value read is a RamBundleHeader")
-    cl = ctx.facts.body(ISRB + "::{closure#0}", required=False)
-    calls = [q.shape(cl.expr_of_call(t)) for bi, t in cl.calls()] if cl else []
-    ctx.check(calls == ["RamBundleHeader::is_valid_magic(arg2)"], rule, ISRB, "magic", "... and applies the same magic test as parse", detail=str(calls))
 
 
 def wrappers(ctx, rule):
